@@ -30,7 +30,11 @@ type Solver struct {
 	out     *bufio.Reader
 	log     *strings.Builder // script of the current path (for one-shot re-solving / dumps)
 	defined map[int32]bool
-	tables  map[int]bool
+	tables  map[string]bool // table functions defined inside the current path scope
+	baseTables map[string]string // table functions defined at base level (name -> definition), shared by all paths
+	pendingBase []string // names to be defined at base level at the next NewPath
+	pathDefs map[string]string // definitions of tables first seen in this path
+	usedBase map[string]bool // base tables referenced by the current path (for one-shot scripts)
 	Queries int
 	NSat    int
 	NUnsat  int
@@ -74,13 +78,22 @@ func (s *Solver) start() error {
 	s.in, s.out = in, bufio.NewReader(out)
 	s.log = &strings.Builder{}
 	s.defined = map[int32]bool{}
-	s.tables = map[int]bool{}
+	s.tables = map[string]bool{}
+	s.pathDefs = map[string]string{}
+	s.usedBase = map[string]bool{}
+	if s.baseTables == nil {
+		s.baseTables = map[string]string{}
+	}
 	s.send("(set-option :produce-models true)")
 	if !strings.Contains(s.Bin, "cvc5") {
 		s.send(fmt.Sprintf("(set-option :timeout %d)", s.TimeoutMs))
 	} else {
 		s.send(fmt.Sprintf("(set-option :tlimit-per %d)", s.TimeoutMs))
 		s.send("(set-logic ALL)")
+	}
+	// table functions shared by all paths live below the per-path scope
+	for _, def := range s.baseTables {
+		s.send(def)
 	}
 	s.send("(push 1)")
 	return nil
@@ -107,10 +120,21 @@ func (s *Solver) send(line string) {
 func (s *Solver) NewPath() {
 	s.Died = false
 	s.send("(pop 1)")
+	// promote the tables first seen in the previous path to the base level
+	if len(s.baseTables) < 20000 {
+		for name, def := range s.pathDefs {
+			if _, ok := s.baseTables[name]; !ok {
+				s.baseTables[name] = def
+				s.send(def)
+			}
+		}
+	}
 	s.send("(push 1)")
 	s.log.Reset()
 	s.defined = map[int32]bool{}
-	s.tables = map[int]bool{}
+	s.tables = map[string]bool{}
+	s.pathDefs = map[string]string{}
+	s.usedBase = map[string]bool{}
 }
 
 func (s *Solver) emit(line string) {
@@ -171,12 +195,21 @@ func (s *Solver) define(t *Term) {
 		if s.defined[x.id] {
 			continue
 		}
-		if x.op == OpTable && !s.tables[x.tbl.id] {
-			s.tables[x.tbl.id] = true
-			s.emit(x.tbl.def(x.a.w))
+		if x.op == OpTable {
+			name := x.tbl.name(x.a.w)
+			if _, inBase := s.baseTables[name]; inBase {
+				s.usedBase[name] = true
+			} else if !s.tables[name] {
+				s.tables[name] = true
+				def := x.tbl.def(x.a.w)
+				s.pathDefs[name] = def
+				s.emit(def)
+			}
 		}
 		s.defined[x.id] = true
-		s.emit(fmt.Sprintf("(define-fun t%d () %s %s)", x.id, sortOf(x.w), x.body()))
+		// a named constant constrained by an equation (not define-fun: z3 expands
+		// define-fun macros at every use, which loses the DAG sharing of deep terms)
+		s.emit(fmt.Sprintf("(declare-const t%d %s)(assert (= t%d %s))", x.id, sortOf(x.w), x.id, x.body()))
 	}
 }
 
@@ -280,7 +313,7 @@ func (s *Solver) Check(extra *Term) Result {
 // cancelled check, so a cancelled process is never asked again.
 func (s *Solver) resync() {
 	logTxt := s.log.String()
-	defd, tabs := s.defined, s.tables
+	defd, tabs, pd, ub := s.defined, s.tables, s.pathDefs, s.usedBase
 	tr := s.Trace
 	s.Close()
 	if err := s.start(); err != nil {
@@ -289,7 +322,7 @@ func (s *Solver) resync() {
 	}
 	s.Trace = tr
 	s.log.WriteString(logTxt)
-	s.defined, s.tables = defd, tabs
+	s.defined, s.tables, s.pathDefs, s.usedBase = defd, tabs, pd, ub
 	io.WriteString(s.in, logTxt)
 	s.Resyncs++
 }
@@ -301,6 +334,10 @@ func (s *Solver) oneShot(extra *Term, vars []*Term) (Result, map[*Term]uint64) {
 	t0 := time.Now()
 	var full strings.Builder
 	full.WriteString("(set-option :produce-models true)\n")
+	for name := range s.usedBase {
+		full.WriteString(s.baseTables[name])
+		full.WriteString("\n")
+	}
 	full.WriteString(s.log.String())
 	if !extra.IsTrue() {
 		full.WriteString("(assert " + extra.ref() + ")\n")
@@ -471,7 +508,15 @@ func parseValues(txt string) map[string]uint64 {
 
 // Script returns the SMT-LIB text of the current path context (declarations,
 // definitions, assertions), for dumps and one-shot re-solving.
-func (s *Solver) Script() string { return s.log.String() }
+func (s *Solver) Script() string {
+	var sb strings.Builder
+	for name := range s.usedBase {
+		sb.WriteString(s.baseTables[name])
+		sb.WriteString("\n")
+	}
+	sb.WriteString(s.log.String())
+	return sb.String()
+}
 
 // OneShot solves script+assertion in a fresh solver process (non-incremental
 // mode uses the solver's full preprocessing), with its own timeout.
